@@ -268,11 +268,13 @@ func (this *DatasetManager) processSnapshot(data []byte) error {
 		return err
 	}
 
+	snapshotIds := make(map[uuid.UUID]struct{}, len(dmSnapshot.Datasets))
 	for _, dataset := range dmSnapshot.Datasets {
 		id, err := uuid.FromBytes(dataset.GetId())
 		if err != nil {
 			return err
 		}
+		snapshotIds[id] = struct{}{}
 		if _, exists := this.datasets[id]; !exists {
 			this.datasets[id], err = newDataset(id, *dataset, this.raftWalDB, this.raftTransport, this.clusterConn, this)
 			if err != nil {
@@ -281,6 +283,15 @@ func (this *DatasetManager) processSnapshot(data []byte) error {
 			for _, partition := range this.datasets[id].partitions {
 				this.allocator.watch(partition)
 			}
+		}
+	}
+	// Datasets that are not part of the snapshot were deleted before it was taken
+	for id, dataset := range this.datasets {
+		if _, exists := snapshotIds[id]; !exists {
+			for _, partition := range dataset.partitions {
+				this.allocator.unwatch(partition.id)
+			}
+			delete(this.datasets, id)
 		}
 	}
 	return nil
